@@ -220,6 +220,50 @@ CHECKS = {
         "documented 1e-12 literal are skipped; degenerate (coincident) "
         "clouds are a precondition."),
   technique="property-based testing (Hypothesis, stateful tail) against a numpy reference evaluation of the defining formulas"),
+ 'C01': dict(
+  text=("Per algorithm class (12 classes, own crash-contained shard each): "
+        "generated particle sets in 1-3 dimensions (uniform, clustered, "
+        "lattice points on cell faces, collinear/coplanar, coincident, "
+        "single, empty; offsets to +-1e6; h over up to three decades; 1-4 "
+        "arrays), class knobs, sort_gids, cache, thread counts and update "
+        "histories (move, rescale h, add, remove, empty, refill); every "
+        "(source, destination) pair is queried in three call styles and "
+        "compared with a brute-force oracle with an 8-eps band; cache on = "
+        "off, sorted output, history = fresh construction. Every case runs "
+        "in a forked child so that crashes and hangs are ordinary, "
+        "shrinkable failures."),
+  note=("Two open findings are excluded by construction and counted "
+        "(StratifiedSFC across different arrays; StratifiedHash with h over "
+        "several decades); grid capacity limits of the classes are "
+        "preconditions; OpenMP cache-fill schedules are only sampled by "
+        "thread count."),
+  technique="property-based testing (Hypothesis) against a brute-force oracle, per-case process isolation, known-finding exclusion by construction"),
+ 'C05': dict(
+  text=("Three small Applications (free-surface drop, fluid column on a "
+        "solid floor with two arrays, doubly periodic TVF box) are run "
+        "through Application.run(argv) in subprocesses for drawn sets of "
+        "configurations from --nnps (10) x --cache-nnps x --openmp with "
+        "1..16 threads x --reorder-freq x --sort-gids; metamorphic oracle: "
+        "agreement with the reference configuration per particle (by gid) "
+        "to 1e-9*scale, bit-identity among sorted+OpenMP runs with the same "
+        "reorder frequency, bit-reproducibility of a repeated run."),
+  note=("OpenMP interleavings are sampled, not controlled; neighbour "
+        "algorithms without spatial ordering reject --reorder-freq with "
+        "NotImplementedError (accepted); strat_sfc on multi-array problems "
+        "is an open finding excluded by construction."),
+  technique="metamorphic/differential property-based testing (Hypothesis-drawn configurations) of whole runs through the application front end"),
+ 'C17': dict(
+  text=("For the eight classes offering get_spatially_ordered_indices: "
+        "generated arrays (typed and strided properties, ghost/remote tail "
+        "or periodic ghosts, far offsets, 1-2 arrays) are re-ordered 1-3 "
+        "times through spatially_order_particles or "
+        "Solver.reorder_particles; the index list must be a permutation, "
+        "the multiset of whole particle records unchanged, real particles "
+        "first, and neighbour queries after the following update equal "
+        "brute force."),
+  note=("StratifiedSFC with two arrays is an open finding (root cause in "
+        "C01) excluded by construction; capacity rejections accepted."),
+  technique="property-based testing (Hypothesis) with permutation/record-multiset invariants and a brute-force neighbour oracle"),
 }
 
 NOT_APPLICABLE = [
